@@ -479,3 +479,35 @@ def stmts(body):
     if body.get('k') == 'compound':
         return body['b']
     return [body]
+
+
+def local_init(fn, ref):
+    """The initialiser of the local variable a `ref` node names, when that variable is never assigned after its declaration
+    (const or not); None otherwise."""
+    ref = strip_casts(ref or {})
+    if ref.get('k') != 'ref' or ref.get('kind') != 'local':
+        return None
+    init = None
+    for n in walk(fn.get('body')):
+        if n.get('k') == 'decl':
+            for v in n.get('vars', []):
+                if v.get('id') == ref.get('id') and v.get('name') == ref.get('name'):
+                    init = v.get('init')
+        tgt = None
+        if n.get('k') == 'binop' and n.get('op') in ('=', '+=', '-=', '*=', '/=', '|=', '&=', '^=', '<<=', '>>=', '%='):
+            tgt = strip_casts(n.get('l') or {})
+        elif n.get('k') == 'unop' and ('++' in n.get('op', '') or '--' in n.get('op', '')):
+            tgt = strip_casts(n.get('e') or {})
+        if tgt and tgt.get('k') == 'ref' and tgt.get('kind') == 'local' and tgt.get('id') == ref.get('id') and tgt.get('name') == ref.get('name'):
+            return None
+    return init
+
+
+def through_locals(fn, e, depth=0):
+    """`e` with a reference to a never-reassigned local replaced by that local's initialiser (repeatedly)."""
+    while depth < 6:
+        i = local_init(fn, e)
+        if i is None:
+            return e
+        e, depth = i, depth + 1
+    return e
